@@ -177,6 +177,15 @@ def run_one(world, run, bytecode, stats):
     if not bytecode:
         stats.inc("runs_with_dont_write_bytecode")
     sys.dont_write_bytecode = not bytecode
+    # process-start configuration of this run: environment variables and the global disable switch
+    env_saved = {k: os.environ.get(k) for k in run.get("env", {})}
+    os.environ.update(run.get("env", {}))
+    if run.get("env"):
+        stats.inc("runs_with_extra_environment")
+    disable_saved = jaxtyping.config.jaxtyping_disable
+    if run.get("disable"):
+        jaxtyping.config.update("jaxtyping_disable", True)
+        stats.inc("runs_with_checking_disabled")
     sys.path.insert(0, world.root)
     importlib.invalidate_caches()
     st = seams.install(seams.SeamState(plan={(f["site"], f["k"]): f["exc"] for f in run.get("faults", [])}))
@@ -347,6 +356,12 @@ def run_one(world, run, bytecode, stats):
         for site, n, exc in st.fired:
             stats.inc(f"fault_fired:{site}:{exc}")
         seams.uninstall()
+        jaxtyping.config.update("jaxtyping_disable", disable_saved)
+        for k_, v_ in env_saved.items():
+            if v_ is None:
+                os.environ.pop(k_, None)
+            else:
+                os.environ[k_] = v_
         # end-of-run invariants that the next op of the SAME process would rely on
         leaked = _be.cache_from_source is not _ORIG_CFS
         _be._write_atomic = _ORIG_WA
